@@ -33,13 +33,35 @@ def discharge(ob):
     discharged / refuted / undecided / vacuous."""
     global Z3_MS
     own = getattr(ob, "budget_ms", None)
+    saved = Z3_MS
     if own:
-        saved, Z3_MS = Z3_MS, max(Z3_MS, int(own))
-        try:
-            return _discharge(ob)
-        finally:
-            Z3_MS = saved
-    return _discharge(ob)
+        Z3_MS = max(Z3_MS, int(own))
+    try:
+        alt = getattr(ob, "alt_goal", None)
+        if alt is not None and ob.expect != "sat":
+            # quick attempt with ALL witness candidates offered (trigger-based, short budget) ...
+            t_a = time.time()
+            for rel_ in (None, 0):
+                s_a = _solver(ob.hyps, alt, False, Z3_MS // 4, relevancy=rel_)
+                if s_a.check() == z3.unsat:
+                    return {"name": ob.name, "kind": ob.kind, "function": ob.func, "status": "discharged",
+                            "backend": "z3(e-matching, all witness candidates)", "ms": round((time.time() - t_a) * 1000, 1)}
+        # ... then the usual pipeline with the basic candidates, then with all of them
+        rec = _discharge(ob)
+        if rec["status"] == "undecided" and alt is not None:
+            # the same goal with more witness candidates offered (an equivalent formula)
+            first_goal, ob.goal = ob.goal, alt
+            try:
+                rec2 = _discharge(ob)
+            finally:
+                ob.goal = first_goal
+            if rec2["status"] == "discharged":
+                rec2["backend"] += " +more witness candidates"
+                rec2["ms"] = round(rec2["ms"] + rec["ms"], 1)
+                return rec2
+        return rec
+    finally:
+        Z3_MS = saved
 
 
 def _discharge(ob):
